@@ -29,7 +29,8 @@ CONSTANTS P,        \* field prime (small)
           BL,       \* runtime.bitlength
           MaxW,     \* bound on the number of private wires
           MaxLen,   \* bound on the number of public calls
-          Vals      \* input values for PrivVal
+          Vals,     \* input values for PrivVal
+          Wide      \* TRUE: the full operator set; FALSE: the core gadgets only (smaller state graph)
 
 VARIABLES wit, cons, objs, gstack, uign, raised, hist
 vars == <<wit, cons, objs, gstack, uign, raised, hist>>
@@ -83,9 +84,9 @@ NewBool(st, b) == LET n == New(st, b) IN [st |-> AddCon(n.st, b, Var(n.w), 1 - b
 
 RECURSIVE NewBits(_, _, _)          \* allocate bits b[i..] of value-list bs; returns [st, ws (wires), sum (sum of 2^i bit_i as LC), sv (its value)]
 NewBits(st, bs, i) ==
-    IF i > Len(bs) THEN [st |-> st, sum |-> Zero, sv |-> 0]
+    IF i > Len(bs) THEN [st |-> st, sum |-> Zero, sv |-> 0, ws |-> <<>>]
     ELSE LET nb == NewBool(st, bs[i]) rest == NewBits(nb.st, bs, i + 1) IN
-         [st |-> rest.st, sum |-> LAdd(LScale(Var(nb.w), 2 ^ (i - 1)), rest.sum), sv |-> bs[i] * (2 ^ (i - 1)) + rest.sv]
+         [st |-> rest.st, sum |-> LAdd(LScale(Var(nb.w), 2 ^ (i - 1)), rest.sum), sv |-> bs[i] * (2 ^ (i - 1)) + rest.sv, ws |-> <<nb.w>> \o rest.ws]
 
 Bit(v, i) == (v \div (2 ^ i)) % 2            \* (v & (1 << i)) >> i for any integer v (floor semantics = two's complement)
 BitsOf(v, n) == [i \in 1..n |-> Bit(v, i - 1)]
@@ -96,6 +97,11 @@ BitLength(v) == LET a == IF v < 0 THEN -v ELSE v IN
 ToBits(st, xv, x) ==
     IF ~Ign /\ (xv < 0 \/ BitLength(xv) > BL) THEN Fail(st)
     ELSE LET nb == NewBits(st, BitsOf(xv, BL), 1) IN AssertZero(nb.st, xv - nb.sv, LSub(x, nb.sum))
+
+\* the same, also handing back the bit wires and bit values (for >>, ~, &, |, ^)
+ToBitsW(st, xv, x) ==
+    IF ~Ign /\ (xv < 0 \/ BitLength(xv) > BL) THEN [st |-> Fail(st), ws |-> <<>>, bs |-> <<>>]
+    ELSE LET bs == BitsOf(xv, BL) nb == NewBits(st, bs, 1) IN [st |-> AssertZero(nb.st, xv - nb.sv, LSub(x, nb.sum)), ws |-> nb.ws, bs |-> bs]
 
 \* LinComb.check_positive(): result bit + decomposition of v (or -v-1); one product constraint
 CheckPos(st, xv, x) ==
@@ -215,6 +221,118 @@ AAssertNonzero(i) ==
     ELSE IF Ign THEN LET n == New(St0, 0) IN Commit(AddCon(n.st, v, objs[i].lc, 0, Var(n.w), OneObj.v, OneObj.lc, FALSE), <<>>, [a |-> "assert_nonzero", i |-> i, j |-> 0, v |-> 0])
     ELSE Commit(Fail(St0), <<>>, [a |-> "assert_nonzero", i |-> i, j |-> 0, v |-> 0])
 
+\* ---- comparisons other than <, equality tests, negation, absolute value
+\* x <= y is (y - x).check_positive(); x > y is (x - y - 1).check_positive(); x >= y is (x - y).check_positive()
+ACmp(op, i, j) ==
+    Room(2 * BL + 4) /\
+    LET a == objs[i] b == objs[j]
+        xv == CASE op = "le" -> b.v - a.v [] op = "gt" -> a.v - b.v - 1 [] op = "ge" -> a.v - b.v
+        x  == CASE op = "le" -> LSub(b.lc, a.lc) [] op = "gt" -> LAdd(LSub(a.lc, b.lc), LScale(One, -1)) [] op = "ge" -> LSub(a.lc, b.lc)
+        r  == CheckPos(St0, xv, x) IN
+    Commit(r.st, <<Obj(r.v, Var(r.w), "bool")>>, [a |-> op, i |-> i, j |-> j, v |-> 0])
+\* x == y is (x - y).check_zero();  x != y is ~ of it: the boolean 1 - ret (no new wire, the constant one)
+AEq(i, j) == Room(2) /\ LET r == CheckZero(St0, objs[i].v - objs[j].v, LSub(objs[i].lc, objs[j].lc)) IN
+             Commit(r.st, <<Obj(r.v, Var(r.w), "bool")>>, [a |-> "eq", i |-> i, j |-> j, v |-> 0])
+ANe(i, j) == Room(2) /\ LET r == CheckZero(St0, objs[i].v - objs[j].v, LSub(objs[i].lc, objs[j].lc)) IN
+             Commit(r.st, <<Obj(1 - r.v, LSub(One, Var(r.w)), "bool")>>, [a |-> "ne", i |-> i, j |-> j, v |-> 0])
+ANeg(i) == Commit(St0, <<Obj(-objs[i].v, LNeg(objs[i].lc), "int")>>, [a |-> "neg", i |-> i, j |-> 0, v |-> 0])
+\* abs(x) = if_then_else(x >= 0, x, -x): sign test, then -x + cond * (x - (-x))
+AAbs(i) ==
+    Room(2 * BL + 5) /\
+    LET x == objs[i] c == CheckPos(St0, x.v, x.lc) IN
+    IF c.st.raised THEN Commit(c.st, <<>>, [a |-> "abs", i |-> i, j |-> 0, v |-> 0])
+    ELSE LET n == New(c.st, c.v * 2 * x.v)
+             st == Emit(n.st, Var(c.w), LScale(x.lc, 2), Var(n.w)) IN
+         Commit(st, <<Obj(-x.v + c.v * 2 * x.v, LAdd(LNeg(x.lc), Var(n.w)), "int")>>, [a |-> "abs", i |-> i, j |-> 0, v |-> 0])
+
+\* ---- shifts by a constant, powers with a constant exponent
+ALShiftC(i, c) == Commit(St0, <<Obj(objs[i].v * 2 ^ c, LScale(objs[i].lc, 2 ^ c), "int")>>, [a |-> "lshiftc", i |-> i, j |-> 0, v |-> c])
+\* x >> c: to_bits(), then from_bits(bits[c:])
+RECURSIVE BitSum(_, _, _, _)       \* sum over k >= from of f(k) * 2^(k - from), f given as a sequence of [v, lc]
+BitSum(terms, from, k, acc) ==
+    IF k > Len(terms) THEN acc
+    ELSE BitSum(terms, from, k + 1, IF k < from THEN acc ELSE [v |-> acc.v + terms[k].v * 2 ^ (k - from), lc |-> LAdd(acc.lc, LScale(terms[k].lc, 2 ^ (k - from)))])
+BitTerms(ws, bs) == [k \in DOMAIN ws |-> [v |-> bs[k], lc |-> Var(ws[k])]]
+ARShiftC(i, c) ==
+    Room(2 * BL + 1) /\
+    LET t == ToBitsW(St0, objs[i].v, objs[i].lc) IN
+    IF t.st.raised THEN Commit(t.st, <<>>, [a |-> "rshiftc", i |-> i, j |-> 0, v |-> c])
+    ELSE IF c >= BL THEN Commit(t.st, <<>>, [a |-> "rshiftc", i |-> i, j |-> 0, v |-> c])   \* from_bits([]) is the plain integer 0: no object
+    ELSE LET r == BitSum(BitTerms(t.ws, t.bs), c + 1, 1, [v |-> 0, lc |-> Zero]) IN
+         Commit(t.st, <<Obj(r.v, r.lc, "int")>>, [a |-> "rshiftc", i |-> i, j |-> 0, v |-> c])
+\* ~x: to_bits(), every bit b replaced by the boolean 1 - b, from_bits
+AInvert(i) ==
+    Room(2 * BL + 1) /\
+    LET t == ToBitsW(St0, objs[i].v, objs[i].lc) IN
+    IF t.st.raised THEN Commit(t.st, <<>>, [a |-> "invert", i |-> i, j |-> 0, v |-> 0])
+    ELSE LET terms == [k \in DOMAIN t.ws |-> [v |-> 1 - t.bs[k], lc |-> LSub(One, Var(t.ws[k]))]]
+             r == BitSum(terms, 1, 1, [v |-> 0, lc |-> Zero]) IN
+         Commit(t.st, <<Obj(r.v, r.lc, "int")>>, [a |-> "invert", i |-> i, j |-> 0, v |-> 0])
+\* x ** 2 = x * x;  x ** 3 = x * (x * x): plain multiplications
+APowC(i, c) ==
+    Room(c - 1) /\
+    LET x == objs[i]
+        n1 == New(St0, x.v * x.v)
+        s1 == Emit(n1.st, x.lc, x.lc, Var(n1.w)) IN
+    IF c = 2 THEN Commit(s1, <<Obj(x.v * x.v, Var(n1.w), "int")>>, [a |-> "powc", i |-> i, j |-> 0, v |-> c])
+    ELSE LET n2 == New(s1, x.v * x.v * x.v) IN
+         Commit(Emit(n2.st, x.lc, Var(n1.w), Var(n2.w)), <<Obj(x.v * x.v * x.v, Var(n2.w), "int")>>, [a |-> "powc", i |-> i, j |-> 0, v |-> c])
+
+\* ---- bitwise operators on two secret integers: both operands are decomposed, one product per bit position
+\* (the product of two boolean-typed bits x_k * y_k is evaluated as y_k.__rmul__(x_k): constraint (y_k, x_k, n_k);
+\*  xor multiplies 2 * x_k first: constraint (y_k, 2 x_k, n_k))
+RECURSIVE BitProducts(_, _, _, _, _, _)
+BitProducts(st, tx, ty, k, scale, acc) ==
+    IF k > Len(tx.ws) THEN [st |-> st, ns |-> acc]
+    ELSE LET n == New(st, scale * tx.bs[k] * ty.bs[k])
+             s2 == Emit(n.st, Var(ty.ws[k]), LScale(Var(tx.ws[k]), scale), Var(n.w)) IN
+         BitProducts(s2, tx, ty, k + 1, scale, Append(acc, n.w))
+ABitwise(op, i, j) ==
+    Room(5 * BL + 2) /\
+    LET tx == ToBitsW(St0, objs[i].v, objs[i].lc) IN
+    IF tx.st.raised THEN Commit(tx.st, <<>>, [a |-> op, i |-> i, j |-> j, v |-> 0])
+    ELSE LET ty == ToBitsW(tx.st, objs[j].v, objs[j].lc) IN
+         IF ty.st.raised THEN Commit(ty.st, <<>>, [a |-> op, i |-> i, j |-> j, v |-> 0])
+         ELSE LET pr == BitProducts(ty.st, tx, ty, 1, IF op = "xor" THEN 2 ELSE 1, <<>>)
+                  terms == [k \in DOMAIN tx.ws |->
+                              LET pv == (IF op = "xor" THEN 2 ELSE 1) * tx.bs[k] * ty.bs[k] IN
+                              IF op = "and" THEN [v |-> pv, lc |-> Var(pr.ns[k])]
+                              ELSE [v |-> tx.bs[k] + ty.bs[k] - pv, lc |-> LSub(LAdd(Var(tx.ws[k]), Var(ty.ws[k])), Var(pr.ns[k]))]]
+                  r == BitSum(terms, 1, 1, [v |-> 0, lc |-> Zero]) IN
+              Commit(pr.st, <<Obj(r.v, r.lc, "int")>>, [a |-> op, i |-> i, j |-> j, v |-> 0])
+
+\* ---- floor division and remainder: divmod, keeping one of the two results
+AFloorDiv(i, j) ==
+    Room(4 * BL + 10) /\
+    LET r == DivMod(St0, objs[i].v, objs[i].lc, objs[j].v, objs[j].lc) IN
+    Commit(r.st, <<Obj(r.qv, Var(r.q), "int")>>, [a |-> "floordiv", i |-> i, j |-> j, v |-> 0])
+AMod(i, j) ==
+    Room(4 * BL + 10) /\
+    LET r == DivMod(St0, objs[i].v, objs[i].lc, objs[j].v, objs[j].lc) IN
+    Commit(r.st, <<Obj(r.rv, Var(r.r), "int")>>, [a |-> "mod", i |-> i, j |-> j, v |-> 0])
+
+\* ---- assertions between two secrets: Python-level check, then the gadget on the difference
+\* assert_positive(): its own range check (same as to_bits'), then to_bits()
+AssertPos(st, xv, x) == ToBits(st, xv, x)
+AAssert(op, i, j) ==
+    Room(2 * BL + 2) /\
+    LET a == objs[i] b == objs[j]
+        bad == CASE op = "assert_lt" -> a.v >= b.v [] op = "assert_le" -> a.v > b.v [] op = "assert_gt" -> a.v <= b.v
+                 [] op = "assert_ge" -> a.v < b.v [] op = "assert_eq" -> a.v # b.v [] op = "assert_ne" -> a.v = b.v
+        dv == CASE op = "assert_lt" -> b.v - a.v - 1 [] op = "assert_le" -> b.v - a.v [] op = "assert_gt" -> a.v - b.v - 1
+                 [] op = "assert_ge" -> a.v - b.v [] OTHER -> a.v - b.v
+        d  == CASE op = "assert_lt" -> LAdd(LSub(b.lc, a.lc), LScale(One, -1)) [] op = "assert_le" -> LSub(b.lc, a.lc)
+                 [] op = "assert_gt" -> LAdd(LSub(a.lc, b.lc), LScale(One, -1)) [] OTHER -> LSub(a.lc, b.lc)
+        h == [a |-> op, i |-> i, j |-> j, v |-> 0] IN
+    IF ~Ign /\ bad THEN Commit(Fail(St0), <<>>, h)
+    ELSE IF op \in {"assert_lt", "assert_le", "assert_gt", "assert_ge"} THEN Commit(AssertPos(St0, dv, d), <<>>, h)
+    ELSE IF op = "assert_eq" THEN Commit(AssertZero(St0, dv, d), <<>>, h)
+    ELSE \* assert_ne: (x - y).assert_nonzero()
+         IF IsGuard /\ dv # 0
+         THEN LET n == New(St0, Inv(dv)) IN Commit(AddCon(n.st, dv, d, Inv(dv), Var(n.w), OneObj.v, OneObj.lc, FALSE), <<>>, h)
+         ELSE IF Ign THEN LET n == New(St0, 0) IN Commit(AddCon(n.st, dv, d, 0, Var(n.w), OneObj.v, OneObj.lc, FALSE), <<>>, h)
+         ELSE Commit(Fail(St0), <<>>, h)
+
 \* guarded regions: add_guard with a boolean-typed (or 0/1 integer) secret condition; nested: guard & cond on the 0/1 LinCombs
 \* (LinComb.__and__ of two secrets decomposes both: not modelled -- regions are entered only from the top level here)
 AEnter(i) == /\ gstack = <<>> /\ objs[i].v \in {0, 1} /\ ~raised
@@ -237,6 +355,13 @@ Next == /\ Len(hist) < MaxLen /\ ~raised
            \/ \E b \in {0, 1} : ABool(b)
            \/ \E i, j \in DOMAIN objs : AAdd(i, j) \/ ASub(i, j) \/ AMul(i, j)
            \/ \E i, j \in Ints : ALt(i, j) \/ ATrueDiv(i, j) \/ ADivMod(i, j)
+           \/ (Wide /\ \E i, j \in Ints : (\E o1 \in {"le", "gt", "ge"} : ACmp(o1, i, j)))
+           \/ (Wide /\ \E i, j \in Ints : (AEq(i, j) \/ ANe(i, j) \/ AFloorDiv(i, j) \/ AMod(i, j)))
+           \/ (Wide /\ \E i, j \in Ints : (\E o2 \in {"and", "or", "xor"} : ABitwise(o2, i, j)))
+           \/ (Wide /\ \E i, j \in Ints : (\E o3 \in {"assert_lt", "assert_le", "assert_gt", "assert_ge", "assert_eq", "assert_ne"} : AAssert(o3, i, j)))
+           \/ (Wide /\ \E i \in Ints : (ANeg(i) \/ AAbs(i) \/ AInvert(i)))
+           \/ (Wide /\ \E i \in Ints : (\E c \in {1, 2} : (ALShiftC(i, c) \/ ARShiftC(i, c))))
+           \/ (Wide /\ \E i \in Ints : (\E c \in {2, 3} : APowC(i, c)))
            \/ \E i \in Ints, c \in {2, 3} : ATrueDivC(i, c)
            \/ \E c \in DOMAIN objs, i, j \in Ints : AIte(c, i, j)
            \/ \E i \in Ints : AAssertNonzero(i)
